@@ -182,11 +182,7 @@ def run(ctx):
     # ---- E3
     n = ctx.pick(140, 2100)
     scs = gen(ctx, n)
-    sp = os.path.join(ctx.work, 'scen.json')
-    tp = os.path.join(ctx.work, 'trace.ndjson')
-    vlib.write_json(sp, scs)
-    ctx.run([drv, 'run', sp, tp], timeout=3000)
-    segs = vlib.split_segments(vlib.read_ndjson(tp))
+    segs = vlib.run_scenarios(ctx, drv, scs, 'c11', what='the stack (UDP sockets / packet injection)')
     n = len(scs)
     if len(segs) != n:
         raise vlib.Inconclusive('driver produced %d segments for %d scenarios' % (len(segs), n))
